@@ -36,7 +36,7 @@ ASSUMPTIONS = [
 FLOORS = {"triples_compared": (6000, 100000), "fail_together": (1500, 30000), "succeed_together": (2000, 40000), "warm_triples": (2000, 40000),
           "partial_body_cases": (200, 4000), "validate_keys_body_checks": (6000, 100000),
           "datasetclass_triples": (1000, 20000), "datasetclass_fail_together": (150, 3000),
-          "pipeline_triples": (1000, 20000), "pipeline_fail_together": (50, 1000)}
+          "pipeline_triples": (1000, 20000), "pipeline_fail_together": (50, 1000), "default_body_checks": (1200, 12000)}
 SHARDS_QUICK = 4
 FEATURES = {"domains": False, "allopts": False}
 
@@ -226,6 +226,57 @@ def datasetclass_triples(ctx, i):
         ctx.nontrivial(spec_hash(["dc", sorted(members.items()), o]))
 
 
+def default_body_family(ctx, i):
+    """Options whose default is a dataset (with / without a domain, a chained default, a namespace member), key absent or
+    present, cold and warm: validate() and keys() choose no branch here, so they run no dataset body; evaluate() runs
+    the default's body only while the key is absent; with a partial body a passing validate() is not turned into a
+    failure that names no missing option."""
+    from labrea import Option, dataset
+
+    from ..probes import Log
+
+    r = case_rng(ctx, ("defbody", i))
+    log = Log()
+
+    def source(scale=Option("SCALE", 1)):
+        log.hit("body", "source")
+        if scale == -1:
+            raise ValueError("partial body")
+        return 2
+
+    src = (dataset.nocache if r.random() < 0.5 else dataset)(source)
+    domain = r.choice([None, [1, 2, 3], (lambda v: isinstance(v, int))])
+    kw = {"default": r.choice([src, Option("OTHER", default=src)])}
+    if domain is not None:
+        kw["domain"] = domain
+    opt = Option("LEVEL", **kw)
+    consumer = dataset.nocache(lambda level=opt: ("c", level))
+    for subject, label in ((opt, "option"), (consumer, "dataset argument")):
+        for o in ({}, {"LEVEL": 3}, {"SCALE": 5}, {"SCALE": -1}, {"LEVEL": 2, "SCALE": -1}):
+            for op in ("validate", "keys"):
+                mark = log.mark()
+                res = observe(getattr(subject, op), dict(o))
+                ran = [e[2] for e in log.since(mark, ("body",))]
+                ctx.evaluations += 1
+                ctx.count("default_body_checks")
+                W = {"family": "default-body", "case": i, "shard": ctx.shard, "shards": ctx.shards, "options": o, "op": op, "subject": label}
+                if ran:
+                    ctx.violation("body-ran-during-" + op, f"{op}() of an {label} whose default is a dataset (domain={'yes' if domain is not None else 'no'}) on {o} ran {ran}: "
+                                  "an option's default chooses no branch", W)
+                    return
+                if res[0] != "ok":
+                    ctx.violation("operations-disagree", f"{op}() of the {label} on {o} fails with {short(res)} although no option is missing", W)
+                    return
+            mark = log.mark()
+            ev = observe(subject.evaluate, dict(o))
+            ran = [e[2] for e in log.since(mark, ("body",))]
+            # (with the key absent the body runs unless the default dataset serves a stored value)
+            if ("LEVEL" in o and ran) or (ev[0] == "err") != ("LEVEL" not in o and o.get("SCALE") == -1):
+                ctx.violation("default-body-at-evaluation", f"evaluate() of the {label} on {o}: {short(ev)}, bodies {ran}", {"family": "default-body", "case": i, "shard": ctx.shard, "shards": ctx.shards, "options": o})
+                return
+    ctx.nontrivial(spec_hash(["default-body", i]))
+
+
 def pipeline_triples(ctx, i):
     """Multi-step pipelines with option-valued step parameters (some required), alone and applied to a source with
     >>: validate, keys and evaluate succeed or fail together (steps are total)."""
@@ -262,6 +313,8 @@ def run(ctx):
         datasetclass_triples(ctx, i)
     for i in range(ctx.n(600, 12000)):
         pipeline_triples(ctx, i)
+    for i in range(ctx.n(80, 800)):
+        default_body_family(ctx, i)
     if ctx.shard == 0:
         known_finding_reproducer(ctx)
         coalesce_reproducer(ctx)
@@ -299,7 +352,10 @@ def run(ctx):
 
 def replay(ctx, rep):
     w = rep["witness"]
-    if w.get("family") == "pipeline":
+    if w.get("family") == "default-body":
+        ctx.shard, ctx.shards = w.get("shard", 0), w.get("shards", 1)
+        default_body_family(ctx, w["case"])
+    elif w.get("family") == "pipeline":
         ctx.shard, ctx.shards = w.get("shard", 0), w.get("shards", 1)
         pipeline_triples(ctx, w["case"])
     elif w.get("family") == "datasetclass":
